@@ -320,7 +320,7 @@ func cmdFeat(args []string) int {
 				if got != want {
 					tag := ""
 					switch {
-					case !c.Moves && c.PCEV && (strings.Contains(n, "effectiveVolumes") || strings.HasPrefix(n, "aggregated") && strings.HasSuffix(n, "insertion=false")):
+					case !c.Moves && c.PCEV && strings.HasPrefix(n, "transactions expand=effectiveVolumes"):
 						tag = "[pcev-without-moves] "
 					case strings.HasPrefix(n, "transactions expand=effectiveVolumes") && !c.PCEV:
 						tag = "[tx-expand-effective-unchecked] "
